@@ -133,7 +133,38 @@ func (p *Parser) parseOperator() error {
 	// Clear operand stack
 	p.operandStack = nil
 
+	// ID is followed by the raw sample data of an inline image, not by tokens
+	if operator == "ID" {
+		p.skipInlineImageData()
+	}
+
 	return nil
+}
+
+// skipInlineImageData advances past the image data that follows the ID
+// operator, up to the EI operator that ends the inline image (ISO 32000-1
+// 8.9.7). The data are arbitrary bytes; EI is recognised as a token of its own:
+// preceded by white space and followed by white space, a delimiter or the end
+// of the stream.
+func (p *Parser) skipInlineImageData() {
+	// a single white-space character separates ID from the data
+	if p.pos < len(p.data) && isWhitespace(p.data[p.pos]) {
+		p.pos++
+	}
+	for i := p.pos; i+1 < len(p.data); i++ {
+		if p.data[i] != 'E' || p.data[i+1] != 'I' {
+			continue
+		}
+		if i > p.pos && !isWhitespace(p.data[i-1]) {
+			continue
+		}
+		if i+2 < len(p.data) && !isWhitespace(p.data[i+2]) && !isDelimiter(p.data[i+2]) {
+			continue
+		}
+		p.pos = i
+		return
+	}
+	p.pos = len(p.data)
 }
 
 // parseOperand parses a single operand, which can be a number, string, name,
